@@ -85,34 +85,56 @@ def _worker(job):
     return impl(fname, [t])
 
 
-def guarded(jobs, timeout):
+def _worker_cpu(job):
+    """CPU seconds of one call (insensitive to the load of the machine)"""
+    fname, t = job
+    t0 = time.process_time()
+    impl(fname, [t])
+    return time.process_time() - t0
+
+
+def guarded(jobs, timeout, worker=None):
     """run impl calls in a worker process with a hard timeout; returns (results, culprit or None)"""
     ctxm = mp.get_context('fork')
+    worker = worker or _worker
 
     def attempt(js, to):
         pool = ctxm.Pool(1)
         try:
-            r = pool.map_async(_worker, js, chunksize=64)
+            r = pool.map_async(worker, js, chunksize=64)
             return r.get(to)
         except mp.TimeoutError:
             return None
         finally:
             pool.terminate()
-    res = attempt(jobs, timeout)
-    if res is not None:
-        return res, None
-    lo, hi = 0, len(jobs)
-    while hi - lo > 1:
-        mid = (lo + hi) // 2
-        if attempt(jobs[lo:mid], max(5.0, timeout / 2)) is None:
-            hi = mid
-        else:
-            lo = mid
-    return None, jobs[lo]
+    if len(jobs) <= 1:
+        res = attempt(jobs, timeout)
+        return (res, None) if res is not None else (None, jobs[0])
+    # chunks of 2000 calls, each with a generous share of the limit (normally a chunk takes 2-3 s)
+    CH = 2000
+    per_chunk = max(60.0, timeout * CH / max(len(jobs), 1) * 4)
+    out = []
+    for k in range(0, len(jobs), CH):
+        chunk = jobs[k:k + CH]
+        res = attempt(chunk, per_chunk)
+        if res is not None:
+            out.extend(res)
+            continue
+        lo, hi = 0, len(chunk)
+        while hi - lo > 1:
+            mid = (lo + hi) // 2
+            if attempt(chunk[lo:mid], max(20.0, per_chunk * (mid - lo) / CH)) is None:
+                hi = mid
+            else:
+                lo = mid
+        return None, chunk[lo]
+    return out, None
 
 
 def timing(ctx):
-    """LF and CRLF, well-formed and damaged, sizes doubling: no ratio of consecutive timings above 8, no call above 5 s"""
+    """LF and CRLF, well-formed and damaged, sizes doubling: no ratio of consecutive CPU times above 8, no call above
+    5 CPU seconds (CPU time of the worker process, so that a loaded machine does not raise an alarm; a hard wall-clock
+    limit of 60 s per call catches catastrophic cases); a suspicious measurement is repeated and the minimum taken"""
     out = {}
     sizes = [16, 32, 64, 128, 256, 512, 1024, 2048, 4096] if not ctx.quick() else [16, 32, 64, 128, 256, 512, 1024]
     for nl_name, nl in (('LF', '\n'), ('CRLF', '\r\n')):
@@ -130,14 +152,21 @@ def timing(ctx):
                 t = nl.join(['-----BEGIN PGP SIGNED MESSAGE-----', 'Hash: ' + hashv, ''] + body + sig) + nl
                 if kind == 'damaged-end':
                     t += '-----END PGP SIGNATURE-----'
-                t0 = time.time()
-                res, culprit = guarded([('remove_signature', t)], 20.0)
-                dt = time.time() - t0
+                res, culprit = guarded([('remove_signature', t)], 60.0, _worker_cpu)
+                if culprit is not None:
+                    out['%s/%s/%d' % (nl_name, kind, n)] = '>60 s wall'
+                    return out, (t, 'remove_signature takes more than 60 s on a %s %s message of %d lines' % (nl_name, kind, n))
+                dt = res[0]
+                if dt > 5.0 or (prev is not None and prev > 0.05 and dt / prev > 8):
+                    for _ in range(2):      # repeat a suspicious measurement, keep the minimum
+                        r2, c2 = guarded([('remove_signature', t)], 60.0, _worker_cpu)
+                        if c2 is None:
+                            dt = min(dt, r2[0])
                 out['%s/%s/%d' % (nl_name, kind, n)] = round(dt, 4)
-                if culprit is not None or dt > 5.0:
-                    return out, (t, 'remove_signature takes more than %s s on a %s %s message of %d lines' % ('20' if culprit else '5', nl_name, kind, n))
+                if dt > 5.0:
+                    return out, (t, 'remove_signature takes more than 5 CPU seconds on a %s %s message of %d lines' % (nl_name, kind, n))
                 if prev is not None and prev > 0.05 and dt / prev > 8:
-                    return out, (t, 'running time grows by %.1fx when the %s %s message doubles to %d lines' % (dt / prev, nl_name, kind, n))
+                    return out, (t, 'CPU time grows by %.1fx when the %s %s message doubles to %d lines' % (dt / prev, nl_name, kind, n))
                 prev = dt
     return out, None
 
@@ -150,7 +179,7 @@ def run(ctx):
              '-----END PGP SIGNATURE-----', '-----BEGIN PGP SIGNED MESSAGE-----\n-----END PGP SIGNATURE-----']
     texts = [w[0] for w in wf] + mal + plain
     jobs = [(fn, t) for t in texts for fn in ('pgp_search', 'is_signed', 'remove_signature')]
-    res, culprit = guarded(jobs, ctx.n(120.0, 900.0))
+    res, culprit = guarded(jobs, ctx.n(400.0, 3000.0))
     if culprit is not None:
         ctx.violation('property', 'C16 fails on the implementation: %s does not return within the time limit (input of %d characters)'
                       % (culprit[0], len(culprit[1])), culprit[1])
@@ -189,7 +218,7 @@ def run(ctx):
     tm, slow = timing(ctx)
     ctx.stream('measure:running-time')['seconds'] = tm
     ctx.stream('measure:running-time')['cases'] = len(tm)
-    ctx.notes.append('polynomial running time of the regex engine is measured (doubling sizes, ratio <= 8, each call <= 5 s), not proved')
+    ctx.notes.append('polynomial running time of the regex engine is measured (doubling sizes, CPU-time ratio <= 8, each call <= 5 CPU s), not proved')
     if slow:
         fails.append(slow)
     fails.sort(key=lambda f: len(f[0]))
